@@ -99,6 +99,11 @@ def gen_cases(tier, seed):
             prog = ("inv", prog)
         cases.append({"kind": "program", "prog": prog, "D": D, "ctx": 0, "seed": env.subseed(seed, "c08long", i),
                       "world": "f64", "mixed": False, "cost": 3})
+    # multiscale composites whose stages USE the context (masked autoregressive stages), and whose last stage is an
+    # InverseTransform of an elementwise affine map (its log-abs-det is a stride-0 expanded view)
+    for i in range(8 if tier == "quick" else 200):
+        cases.append({"kind": "multiscale_ctx", "D": [4, 8, 8, 16][i % 4], "stages": [2, 2, 3, 3][i % 4], "last": ["ar", "inv_affine"][(i // 4) % 2],
+                      "seed": env.subseed(seed, "c08mc", i), "world": "f64", "cost": 2})
     # multiscale grid
     shapes = [(c,) for c in range(2, 10)]
     shapes += [(a, b) for a in range(1, 6) for b in range(1, 6)]
@@ -116,9 +121,98 @@ def gen_cases(tier, seed):
     return cases
 
 
+def run_multiscale_ctx(case):
+    """forward / inverse of a multiscale composite under a context against the stages routed by hand with that context"""
+    from nflows import transforms as T
+    r = R(case)
+    D, ns, seed = case["D"], case["stages"], case["seed"]
+    torch.manual_seed(seed)
+    g = torch.Generator().manual_seed(seed)
+    ms = T.MultiscaleCompositeTransform(num_transforms=ns, split_dim=1)
+    stages, cur = [], (D,)
+    for i in range(ns):
+        width = cur[0]
+        if i == ns - 1 and case["last"] == "inv_affine":
+            t = T.InverseTransform(T.PointwiseAffineTransform(shift=0.3, scale=1.7))
+        else:
+            t = T.MaskedAffineAutoregressiveTransform(features=width, hidden_features=max(8, width), context_features=2, num_blocks=1)
+            with torch.no_grad():
+                for p_ in t.parameters():
+                    p_.add_(0.2 * torch.randn(p_.shape, generator=g))
+        stages.append(t)
+        cur = ms.add_transform(t, cur)
+    ms.eval()
+    B = 3
+    x = torch.randn(B, D, generator=g)
+    ctx = torch.randn(B, 2, generator=g) * 2
+
+    def ref_forward(x_, c_):
+        outs, tot, h = [], x_.new_zeros(x_.shape[0]), x_
+        for i, t in enumerate(stages):
+            h, l = t(h, c_)
+            tot = tot + l
+            if i < ns - 1:
+                a, h = torch.chunk(h, 2, dim=1)
+                outs.append(a)
+            else:
+                outs.append(h)
+        return torch.cat(outs, dim=1), tot
+    def ref_inverse(y_, c_):
+        # block sizes emitted by the forward routing
+        sizes, w_ = [], D
+        for i in range(ns):
+            if i < ns - 1:
+                sizes.append(w_ - w_ // 2 if False else (w_ + 1) // 2)
+                w_ = w_ // 2
+            else:
+                sizes.append(w_)
+        blocks = list(torch.split(y_, sizes, dim=1))
+        h, tot = blocks[-1], y_.new_zeros(y_.shape[0])
+        h, l = stages[-1].inverse(h, c_)
+        tot = tot + l
+        for i in range(ns - 2, -1, -1):
+            h = torch.cat([blocks[i], h], dim=1)
+            h, l = stages[i].inverse(h, c_)
+            tot = tot + l
+        return h, tot
+    det = dict(D=D, stages=ns, last=case["last"])
+    r.ev()
+    r.count("multiscale_context_cases")
+    try:
+        with torch.no_grad():
+            y_ref, l_ref = ref_forward(x, ctx)
+            y, l = ms(x, ctx)
+            y_none_ref = ref_forward(x, ctx.flip(0))[0]
+    except Exception as e:
+        r.viol("forward_raises", "multiscale forward with a context raises", exc=repr(e)[:200], **det)
+        return r.done()
+    if not torch.allclose(y, y_ref, rtol=1e-12, atol=1e-12) or not torch.allclose(l, l_ref, rtol=1e-12, atol=1e-12):
+        r.viol("routing", "multiscale forward under a context != its stages applied by hand with that context",
+               out_diff=float((y - y_ref).abs().max()), lad_diff=float((l - l_ref).abs().max()), **det)
+    try:
+        with torch.no_grad():
+            xb, lb = ms.inverse(y_ref, ctx)
+            xr, lr = ref_inverse(y_ref, ctx)
+        if not torch.allclose(xb, xr, rtol=1e-12, atol=1e-12) or not torch.allclose(lb, lr, rtol=1e-12, atol=1e-12):
+            r.viol("inverse", "multiscale inverse under a context != its stages' inverses applied by hand with that context",
+                   x_diff=float((xb - xr).abs().max()), lad_diff=float((lb - lr).abs().max()), **det)
+        with torch.no_grad():
+            xb2, lb2 = ms.inverse(y_ref, ctx)        # and again on the same object
+        if not (torch.equal(xb2, xb) and torch.equal(lb2, lb)):
+            r.viol("repeat", "multiscale inverse gives a different result when called a second time on the same object", **det)
+    except Exception as e:
+        r.viol("inverse_raises", "multiscale inverse with a context raises on a legal nesting", exc=repr(e)[:200], **det)
+    if not torch.allclose(y_none_ref, y_ref):
+        r.cell("multiscale_ctx", D, ns, case["last"])
+    r.sample({"multiscale_ctx": det})
+    return r.done()
+
+
 def run_case(case):
     if case["kind"] == "multiscale":
         return run_multiscale(case)
+    if case["kind"] == "multiscale_ctx":
+        return run_multiscale_ctx(case)
     r = R(case)
     from nflows import transforms as T
     prog = case["prog"]
